@@ -144,7 +144,7 @@ func expectMsg(p *Program, m *Msg, path string, depth int) *EMsg {
 			nullable := f.Nullable == nil || *f.Nullable
 			for _, sf := range sub.Fields {
 				if nullable {
-					sf.Via = append([]string{strings.TrimPrefix(f.Type, "msg:")}, sf.Via...)
+					sf.Via = append([]string{BareMsg(strings.TrimPrefix(f.Type, "msg:"))}, sf.Via...)
 				}
 				em.Fields = append(em.Fields, sf)
 			}
